@@ -276,6 +276,3 @@ func doReplay(prop, path string) int {
 	return 0
 }
 
-func init() {
-	props["C09"] = runC09
-}
